@@ -35,6 +35,10 @@ def lib_rewards(env, td, hists):
         E._set_bs(env, len(idxs))
         try:
             r = env._get_reward(sub, acts).reshape(len(idxs), -1)[:, 0].tolist()
+            # asking again must give the same answer (evaluators call get_reward on a state the policy already scored):
+            # a reward function that mutates the episode state is reported through the second value
+            r2 = env._get_reward(sub, acts).reshape(len(idxs), -1)[:, 0].tolist()
+            r = [b if abs(a - b) > 1e-7 * (1 + abs(a)) else a for a, b in zip(r, r2)]
         except Exception as e:  # a crash inside the reward function is an observable of its own
             r = [e] * len(idxs)
         for i, x in zip(idxs, r):
@@ -178,7 +182,7 @@ def replay(rec):
     L = rec["solution_len"]
     ref = O.objective(spec.kind, spec.oracle_inst(inst), acts[:L], spec.oracle_cfg(inst))
     try:
-        r = float(env._get_reward(td, torch.tensor([acts])).reshape(-1)[0])
+        r = solo_reward(env, td, acts)
     except Exception as e:
         return True, f"solo replay: _get_reward raised {type(e).__name__}: {e}"
     bad = abs(r - ref) > tol(ref, len(acts))
